@@ -1,13 +1,15 @@
 (* Actual/EditActual.v — the quirk vector claimed for the current tree as far as property C13 is concerned
-   (hand-maintained; tied to the code by the correspondence check of every run; the C13-relevant flags are listed in
+   (tied to the code by the correspondence check of every run; the C13-relevant flags are listed in
    /verif/known.d/C13.json).  The vectors of the suppression parser, the SRP metric and the DRY tokenizer are the
    ones claimed by their own properties (C04, C16, C03). *)
-From TL Require Import Lib.Base Model.Ignore Model.Srp Model.DryPipe Model.Dry
+From TL Require Import Lib.Base Gen.EditGen Model.Ignore Model.Srp Model.DryPipe Model.Dry
      Actual.IgnoreActual Actual.SrpActual Actual.DryActual Model.EditRun.
 
 Definition edit_actual : equirks := {|
   e_ign := ignore_actual;      (* q_splitlines_unicode = true : a form feed appended to a line moves every directive below it *)
-  e_srp := srp_actual;         (* q_ts_loc_raw_span = true   : TS/JS class size counts blank and comment lines *)
+  e_srp := srp_actual;         (* the TS/JS line-count rule is read from the source (Gen.SrpGen.ts_loc_mode) *)
   e_dry := dry_actual;
-  e_bom_kept := true           (* read_text("utf-8") keeps U+FEFF in the text handed to the rules *)
+  (* read from the source: U+FEFF stays in the text handed to the rules unless the codec of FileLintContext.file_content is
+     the BOM-stripping one (fix bbc2cf4 made it "utf-8-sig") *)
+  e_bom_kept := negb (String.eqb file_read_encoding "utf-8-sig")
 |}.
